@@ -63,3 +63,10 @@ def first_place_order(s: CSet, p: Profile) -> Seq(CSet):
 def fp_sorted(t: Seq(CSet), p: Profile) -> Bool:
     """the strict order t lists its candidates by non-increasing first-place tally of profile p"""
     raise NotImplementedError
+
+
+@spec(opaque=True)
+def score_by(f: Fn, p: Profile) -> Dict(Real):
+    """what the score function f (a function-valued field whose identity the contract does not fix, e.g. Borda's
+    partial(score_profile_from_rankings, ...)) returns for profile p: assumed to be a pure function of p (A-PUREFN)"""
+    raise NotImplementedError
